@@ -62,12 +62,19 @@ func (m *model) label() string {
 // step advances the model over one Decrypt of a file whose stanza list holds
 // (hasD) a stanza with D's type and tag and (hasS) a stanza addressed to S.
 func (m *model) step(hasD, hasS bool, p pass) pred {
-	plain := func() string {
-		if hasS {
-			return clsPlain
-		}
-		return clsNoMatch
+	if hasS {
+		return m.stepP(hasD, clsPlain, p)
 	}
+	return m.stepP(hasD, clsNoMatch, p)
+}
+
+// stepP is step with the answer of the plain identity of S on the stanza list
+// given explicitly ("unlocked: result = plainIdentity(S).Unwrap(stanzas)"). For
+// well-formed lists it is plaintext iff a stanza is addressed to S; for lists
+// holding a malformed stanza of S's own type it is whatever the plain identity
+// of the tree under test says (measured, see tagvar.go).
+func (m *model) stepP(hasD bool, plainClass string, p pass) pred {
+	plain := func() string { return plainClass }
 	if m.unlocked {
 		return pred{0, plain()}
 	}
